@@ -79,9 +79,9 @@ func (s *tokStream) value() *V {
 		}
 		v.Tail = s.value()
 		return v
-	case "A":
+	case "A", "a":
 		n := int(s.num())
-		v := &V{K: 'A'}
+		v := &V{K: 'A', NoEnv: k == "a"}
 		for i := 0; i < n; i++ {
 			v.Items = append(v.Items, s.value())
 		}
@@ -142,10 +142,18 @@ func replay(path string) {
 			js := ts.next() == "1"
 			setCuts(ts.next())
 			valCase(env, ts.value(), js, js, "replay")
+		case "pty":
+			js := ts.next() == "1"
+			setCuts(ts.next())
+			ptyCase(env, ts.value(), js, js, "replay")
 		case "scr":
 			ts.next()
 			setCuts(ts.next())
 			scrCase(env, ts.str(), "replay")
+		case "pts":
+			ts.next()
+			setCuts(ts.next())
+			scrCaseP(env, ts.str(), "pts", "replay")
 		case "hist":
 			n := int(ts.num())
 			var ops []hop
